@@ -37,6 +37,9 @@ def run(ctx):
         "(gap-free delivery from the start offset) and are not proved here",
     ]
     broken = []
+    ok, log = ctx.extract("group", ["lean/KafkaVerif/Gen/GroupFacts.lean"])
+    if not ok:
+        broken.append({"kind": "obligation", "name": "translator go/extract group", "detail": log[-1500:]})
     res = ctx.prove(MODULE)
     if not res["ok"]:
         broken.append({"kind": "obligation", "theorems": res["failed"], "detail": res["reasons"][:10]})
